@@ -23,6 +23,9 @@ def suites(tier):
             jobs.append(dict(id=jid("merge", cfg), func="zzH_C04_merge", cfg=cfg))
         cfg = dict(tac=tac, chunks=3 if q else 4)
         jobs.append(dict(id=jid("pass", cfg), func="zzH_C04_pass", cfg=cfg))
+        # a list long enough for probes far ahead of the merged prefix
+        cfg = dict(tac=tac, total=1200 if q else 3000)
+        jobs.append(dict(id=jid("jump", cfg), func="zzH_C04_jump", cfg=cfg, unwind=2000000))
     for crit in range(6):
         cfg = dict(criterion=crit, nmax=3 if q else 5)
         jobs.append(dict(id=jid("key", cfg), func="zzH_C04_key", cfg=cfg))
